@@ -19,9 +19,9 @@ AREAS = {
     },
 }
 
-STORE_RULE = "seeded generator of scripts against one fresh instance (embedded NATS server + store.NewStore on a temp SQLite file): 2-6 nodes created edge-first or points-first, mirrors and diamonds, then 4-13 requests: node-point batches over an alphabet built to collide (types value/description/ab/a/tA, keys \"\"/0/1/b/k/10, both spellings of one identity in one batch, re-deliveries, stale and future times, values 0, +-Inf, 1e300, 5e-324, 2^53, random finite bit patterns, text incl. Unicode and newlines, data blobs, tombstone counts, origins), edge-point writes (delete / undelete / other types), structure changes, and refused requests (self edge, cycle through live or deleted edges, root tombstone, first edge without node type, NaN in node or edge batches); after every request the reply, everything received on up.> and a dump of every edge into every known node (nodes.all.<id>, deleted included) are recorded; a script is non-trivial when it has more than 3 requests; distinct by SHA-1 of its requests"
+STORE_RULE = "seeded generator of scripts against one fresh instance (embedded NATS server + store.NewStore on a temp SQLite file): 2-6 nodes created edge-first or points-first, mirrors and diamonds, then 4-13 requests: node-point batches over an alphabet built to collide (types value/description/ab/a/tA, keys \"\"/0/1/b/k/10, both spellings of one identity in one batch, re-deliveries, stale and future times, values 0, +-Inf, 1e300, 5e-324, 2^53, random finite bit patterns, text incl. Unicode and newlines, data blobs, tombstone counts, origins), edge-point writes (delete / undelete / other types), structure changes, and refused requests (self edge, cycle through live or deleted edges, root tombstone, first edge without node type below a node or below the sentinel root, NaN or a time outside the 64-bit nanosecond range in node or edge batches), points at the first and last representable instant; after every request the reply, everything received on up.> and a dump of every edge into every known node (nodes.all.<id>, deleted included) are recorded; a script is non-trivial when it has more than 3 requests; distinct by SHA-1 of its requests"
 STORE_TRUSTED = ["model of nodePoints/edgePoints/updateHash/up and the two write handlers: coq/theories/Store/Model.v (hand-written, tied by this run's correspondence: every reply, rebroadcast subject and payload, and every dump incl. every hash must agree)", 'bit-level CRC-32/IEEE and float64 predicates (NaN, >0, even) written in Coq and diffed against hash/crc32 and Go float semantics through the stored hashes and replies']
-STORE_ASSUME = ['SQLite, database/sql and NATS request/reply behave as documented (a write is visible to reads issued after its reply)', 'node ids are NATS subject tokens without quotes; strings are valid UTF-8 without NUL; times are non-zero and within int64 ns; edge tombstone points carry 0, 1 or 2']
+STORE_ASSUME = ['SQLite, database/sql and NATS request/reply behave as documented (a write is visible to reads issued after its reply)', 'node ids are NATS subject tokens without quotes; strings are valid UTF-8 without NUL; times are non-zero (the store stamps a zero time with its own clock); times outside the 64-bit nanosecond range are generated and must be refused; edge tombstone points carry 0, 1 or 2']
 
 AREAS["C01"] = {
     "area": "c01", "id": 1, "coq": ["Base", "Store", "Properties/C01.v"], "rule": STORE_RULE, "trusted": STORE_TRUSTED, "assumptions": STORE_ASSUME,
@@ -38,7 +38,7 @@ AREAS["C03"] = {
     "level_note": "trusted as C01; CRC-32 collisions are outside the claim (delta != 0 is a hypothesis of the propagation clause); a change below an even number of paths cancels by the XOR definition itself (known finding K2)",
 }
 AREAS["C05"] = {
-    "area": "c05", "id": 5, "coq": ["Base", "Store", "Properties/C05.v", "Anchors/Generated.v", "Anchors/TieStore.v"], "rule": STORE_RULE, "trusted": STORE_TRUSTED, "assumptions": STORE_ASSUME,
+    "area": "c05", "id": 5, "coq": ["Base", "Store", "Properties/C05.v", "Anchors/Generated.v", "Anchors/TieStore.v"], "rule": STORE_RULE, "trusted": STORE_TRUSTED + ['translator harness/cmd/anchors (go/parser + go/types, no imports followed): prints constants, tables and modbus.RtuCrc (as a MiniGo syntax tree) from the sources into coq/theories/Anchors/Generated.v before every build; the *_from_source theorems are re-checked against that text; MiniGo/Syntax.v is the stated semantics of the fragment'], "assumptions": STORE_ASSUME,
     "level_text": "proof: in the model every request of a refused class is answered with an error, an error reply leaves state and rebroadcast stream untouched, reachable graphs stay acyclic "
                   "so the upward recursions terminate; replies, dumps and up.> traffic of a real instance are compared with the model after every request and the refusal/no-trace specification is evaluated on them",
     "level_note": "trusted as C01; a request that kills or wedges the instance is observed through worker processes with timeouts; 'keeps answering' is evaluated as: every request is answered, "
@@ -154,7 +154,7 @@ AREAS["C04"] = {
             "edge points; thorough: 10 scripts) is killed by strace fault injection (SIGKILL at the N-th write/pwrite64/fsync/fdatasync/ftruncate on the database or its WAL, "
             "N swept from 1 until three consecutive runs survive) and at 6 sampled times; acknowledgements are logged with O_SYNC; the file is then reopened twice by fresh "
             "processes and everything is dumped; a run is non-trivial when the writer was killed; distinct by (script, injection point, acknowledged count)",
-    "trusted": STORE_TRUSTED + ["strace -e inject fault injection; the per-thread counting of when=N means a given N is not one fixed crash point, the sweep still visits every database write"],
+    "trusted": STORE_TRUSTED + ['translator harness/cmd/anchors (go/parser + go/types, no imports followed): prints constants, tables and modbus.RtuCrc (as a MiniGo syntax tree) from the sources into coq/theories/Anchors/Generated.v before every build; the *_from_source theorems are re-checked against that text; MiniGo/Syntax.v is the stated semantics of the fragment'] + ["strace -e inject fault injection; the per-thread counting of when=N means a given N is not one fixed crash point, the sweep still visits every database write"],
     "assumptions": STORE_ASSUME + ["SQLite in WAL mode with synchronous=NORMAL makes a committed transaction durable against process death and an uncommitted one invisible: "
                                    "this is the machine of Store/Crash.v, assumed, and probed by the injection sweep; power loss / OS crash are outside the claim"],
     "level_text": "proof (partial): C04_atomic_batches and C04_hash_consistent are Coq theorems (for every history, statement decomposition and crash instant the durable state is a prefix "
@@ -242,7 +242,7 @@ AREAS["C18"] = {'area': 'c18',
          'over-long variants, unsupported and invalid function codes (incl. 22,23,24, >=0x80), random bytes; plus a fixed small-scope sweep (3 maps '
          'x FC1-6 x 9 addresses x 7 quantities). A case is non-trivial when the function code is one of the eight served and the request is long '
          'enough to be parsed; distinct by SHA-1 of (register file, fc, data)',
- 'trusted': ["model of PDU.ProcessRequest and Regs: coq/theories/Modbus/Pdu.v, Regs.v (hand-written, tied by this run's correspondence)",
+ 'trusted': ['translator harness/cmd/anchors (go/parser + go/types, no imports followed): prints constants, tables and modbus.RtuCrc (as a MiniGo syntax tree) from the sources into coq/theories/Anchors/Generated.v before every build; the *_from_source theorems are re-checked against that text; MiniGo/Syntax.v is the stated semantics of the fragment', "model of PDU.ProcessRequest and Regs: coq/theories/Modbus/Pdu.v, Regs.v (hand-written, tied by this run's correspondence)",
              'specification of the protocol behaviour: coq/theories/Modbus/PduSpec.v (hand-written from MODBUS Application Protocol V1.1b3)'],
  'level_text': 'proof: C18_total (no panic, no hypothesis on register file, function code or data), C18_conforms (model = protocol specification for '
                'every well-formed register file, function code and data) and C18_exception_no_change are Coq theorems about the executable model of '
@@ -285,7 +285,7 @@ AREAS["C19"] = {'area': 'c19',
          'Transport.Encode / Decode on arbitrary PDUs and on well-formed, damaged, truncated and random packets in both roles. A session is '
          'non-trivial when a call returned more than one value or a successful write was followed by another call; other cases when their input is '
          'non-empty; distinct by SHA-1 of the inputs',
- 'trusted': ['model of client.go, server.go (Listen iteration), rtu.go, tcp.go, crc.go, data.go and the response decoders: '
+ 'trusted': ['translator harness/cmd/anchors (go/parser + go/types, no imports followed): prints constants, tables and modbus.RtuCrc (as a MiniGo syntax tree) from the sources into coq/theories/Anchors/Generated.v before every build; the *_from_source theorems are re-checked against that text; MiniGo/Syntax.v is the stated semantics of the fragment', 'model of client.go, server.go (Listen iteration), rtu.go, tcp.go, crc.go, data.go and the response decoders: '
              "coq/theories/Modbus/{Client,Frames,RtuCrc,Conv}.v (hand-written, tied by this run's correspondence)",
              "specification used on the implementation's outputs: coq/theories/Modbus/C19Check.v (own bit-serial CRC-16/MODBUS, own frame layouts, "
              'register-file view and protocol specification of PduSpec.v)'],
@@ -440,7 +440,7 @@ AREAS["C10"] = {'area': 'c10',
          'shuffled order, children interleaved; about 8% of the cases come from a boundary stream that leaves the well-formed domain (NaN, > 2^53, > '
          '1000 elements, map key ""); a round-trip case is non-trivial when its value encodes to at least 3 points, a pair when its difference has '
          'at least one point, a tree when it has at least 2 nodes; distinct by SHA-1 of type and value(s)',
- 'trusted': ['model of data.Encode / Decode / DiffPoints / MergePoints over the universe of field kinds: coq/theories/Codec/Model.v (hand-written, '
+ 'trusted': ['translator harness/cmd/anchors (go/parser + go/types, no imports followed): prints constants, tables and modbus.RtuCrc (as a MiniGo syntax tree) from the sources into coq/theories/Anchors/Generated.v before every build; the *_from_source theorems are re-checked against that text; MiniGo/Syntax.v is the stated semantics of the fragment', 'model of data.Encode / Decode / DiffPoints / MergePoints over the universe of field kinds: coq/theories/Codec/Model.v (hand-written, '
              "tied by this run's correspondence: every Encode, Decode, DiffPoints and MergePoints result is compared with the model's, bit for bit, "
              'also after an error)',
              'float64<->integer and float64<->float32 conversions are functions on IEEE bit patterns in the model (amd64 semantics), exercised '
